@@ -94,7 +94,7 @@ UNITS["ctors"] = {
 RPT_ITEMS = [items("src/transcripts.rs", ["RangeProofTranscript"])]
 RPT_HEADER = "impl<'a, R: CryptoRngCore> RangeProofTranscript<'a, P, R> {"
 RPT_FNS = ["new", "challenges_y_z", "challenge_round_e", "challenge_final_e", "to_verifier_rng", "build_rng", "as_mut_rng"]
-RPT_OPAQUE = ["new=>let size : usize=>opaque_size(witness)"]
+RPT_OPAQUE = ["new=>let size : usize~size_of=>opaque_size(witness)"]
 TPROTO_FNS = ["append_domain_separator", "append_point", "validate_and_append_point", "append_scalar", "challenge_scalar"]
 TPROTO_HEADER = "impl TranscriptProtocol for Transcript {\n    open spec fn tlog(&self) -> Seq<TEvent> { self.log() }"
 
